@@ -6,7 +6,12 @@ Correspondence (hook h3, one private nano_vmd per phase):
       each `nano_vm --daemon x.nvm` observation (stdout bytes, stderr bytes, exit) must equal `nano_vm x.nvm` of the same tree;
       a quarter of the clients are raw sockets whose reply bytes are also decoded by the extracted client loop (client_observe);
   (B) the specified CRC-32 (Sessions.crc32_spec) vs the real nvm_crc32 (probe) and vs the checksum nano_virt wrote in each module;
-  (C) thorough: the same rounds against the ThreadSanitizer build of the daemon; reports are findings."""
+  (C) the session counter (theorems C17_active_balanced / C17_active_zero_when_done) tied to the real daemon: with m sessions held in
+      flight STATUS reports m + 1, afterwards 1; STATUS sampled during every round stays within [1, k + 1];
+  (D) simultaneous cold-start burst on the ThreadSanitizer build (both tiers); thorough: whole rounds on the TSan and ASan builds.
+Bounded time: every client is limited to 60 s (20 s once one client has hung); a daemon instance that has produced 3 hung clients or
+communication errors is abandoned (the failures are recorded with the round's concurrency level and programs) and the phases that
+remain run on fresh daemons; optional phases are dropped when the budget is gone and failures are on record."""
 import os, sys, json, time, struct, threading, tempfile, shutil, hashlib, random, re
 import vlib
 import vmd_common as V
@@ -50,7 +55,7 @@ class Monitor(threading.Thread):
     """Polls STATUS to measure how many sessions really overlapped."""
     def __init__(self, d):
         super().__init__(daemon=True)
-        self.d = d; self.stop = threading.Event(); self.maxv = 0; self.samples = 0
+        self.d = d; self.stop = threading.Event(); self.maxv = 0; self.minv = None; self.samples = 0
 
     def run(self):
         while not self.stop.is_set():
@@ -58,64 +63,95 @@ class Monitor(threading.Thread):
             if v is not None:
                 self.samples += 1
                 self.maxv = max(self.maxv, v - 1)     # minus the STATUS session itself
+                self.minv = v - 1 if self.minv is None else min(self.minv, v - 1)
             time.sleep(0.002)
 
 
-def one_round(ck, b, d, ref, progs, k, jitter, seed, tag, raw_share=0.25):
-    """k clients with arrival jitter against daemon d.  Returns (n_bad, overlap_max, details)."""
+def one_round(ck, b, d, ref, progs, k, jitter, seed, tag, bud, raw_share=0.25, prev_k=0):
+    """k clients with arrival jitter against daemon d.  Returns (n_bad, overlap_max, details).
+    Every client is bounded by bud.timeout(); hung clients and communication errors are failures AND count against the phase."""
     r = random.Random(seed)
     picks = [r.choice(progs.items) for _ in range(k)]
     delays = [r.random() * jitter for _ in range(k)]
     raws = [r.random() < raw_share for _ in range(k)]
     res = [None] * k
+    tmo = bud.timeout()
 
     def client(i):
         time.sleep(delays[i])
         p = picks[i]
         if raws[i]:
             try:
-                rr = V.raw_session(d.sock, V.frame(V.T_LOAD_EXEC, p['blob']), timeout=180)
+                rr = V.raw_session(d.sock, V.frame(V.T_LOAD_EXEC, p['blob']), timeout=tmo)
                 res[i] = ('raw', rr['recv'], rr)
             except OSError as e:
                 res[i] = ('raw', b'', dict(error=str(e)))
         else:
-            res[i] = ('cli', V.via_daemon(b, d, p['nvm'], timeout=180), None)
+            res[i] = ('cli', V.via_daemon(b, d, p['nvm'], timeout=tmo), None)
 
     mon = Monitor(d); mon.start()
     ths = [threading.Thread(target=client, args=(i,)) for i in range(k)]
+    t_round = time.time()
     for t in ths:
         t.start()
     for t in ths:
         t.join()
+    t_round = time.time() - t_round
     mon.stop.set(); mon.join(3)
     bad = 0
     raw_lines, raw_idx = [], []
+    round_programs = ['%s(%s)' % (p['name'], 'raw' if rw else 'nano_vm --daemon') for p, rw in zip(picks, raws)]
+    n_hung = n_comm = 0
     for i, (p, rs) in enumerate(zip(picks, res)):
         base = dict(case='client', program=p['src'], program_name=p['name'], program_kind=p['kind'], k=k, jitter=jitter, round_seed=seed,
-                    engine=tag, client_index=i, client_type=rs[0])
+                    engine=tag, client_index=i, client_type=rs[0], client_timeout_s=tmo, round_programs=round_programs,
+                    phase='concurrent round of %d clients, arrival jitter %g s' % (k, jitter))
         key = 'c17:client:%s:%s' % (p['kind'], hashlib.sha1(p['src'].encode()).hexdigest()[:10])
         if rs[0] == 'cli':
             obs = rs[1]
+            anom = V.client_anomaly(obs)
         else:
             c = V.canon_reply(rs[1])
             obs = V.expected_client_obs(c)
-            if len(rs[1]) <= 100000:            # the extracted client loop appends lists: quadratic on very long replies
+            anom = V.raw_anomaly(rs[2])
+            if anom is None and len(rs[1]) <= 100000:   # the extracted client loop appends lists: quadratic on very long replies
                 raw_lines.append('obs ' + hx(rs[1])); raw_idx.append(i)
             fs, rest = V.parse_frames(rs[1])
             exits = [f for f in fs if f[0] == V.T_EXIT]
-            if rest or not c['ordered'] or not c['hdr_ok'] or len(exits) != 1 or fs[-1][0] != V.T_EXIT:
+            if anom is None and (rest or not c['ordered'] or not c['hdr_ok'] or len(exits) != 1 or fs[-1][0] != V.T_EXIT):
                 bad += 1
                 ck.fail(key + ':framing', 'reply stream of a LOAD_EXEC session is not OUTPUT* [ERROR] EXIT_CODE', dict(base, frames=[(f[0], len(f[1])) for f in fs][-6:], rest=rest.hex()[:100]))
         ck.count(('client', tag, p['name'], k, jitter, seed, i), nontrivial=len(p['obs'][1]) > 0 and k > 1)
-        if obs != p['obs']:
+        exp = p['obs']
+        if anom == 'hung':
+            n_hung += 1; bad += 1
+            bud.anomaly('hung: client %d/%d %s (%s)' % (i, k, p['name'], rs[0]), hung=True)
+            got = len(obs[1]) if rs[0] == 'cli' else len(rs[1])
+            ck.fail(key, 'client %d of %d concurrent clients (%s) was never served: no complete reply within %g s (%d bytes received), standalone nano_vm gives exit %s and %d stdout bytes' % (
+                        i, k, rs[0], tmo, got, exp[0], len(exp[1])),
+                    dict(base, hung=True, expected=dict(exit=exp[0], stdout_len=len(exp[1]), stderr=exp[2].decode('utf-8', 'replace')[:300]),
+                         observed=dict(outcome='timeout after %g s' % tmo, bytes_received=got, daemon_alive=d.alive())))
+            continue
+        if anom == 'comm':
+            n_comm += 1
+            bud.anomaly('comm: client %d/%d %s (%s)' % (i, k, p['name'], rs[0]))
+        if obs != exp:
             bad += 1
-            exp = p['obs']
             fd = next((j for j, (x, y) in enumerate(zip(obs[1], exp[1])) if x != y), min(len(obs[1]), len(exp[1])))
             ck.fail(key, 'client %d/%d (%s) observed a result different from standalone nano_vm: exit %s vs %s, stdout %d vs %d bytes (first difference at %d), stderr %r vs %r' % (
                         i, k, rs[0], obs[0], exp[0], len(obs[1]), len(exp[1]), fd, obs[2][:80], exp[2][:80]),
-                    dict(base, expected=dict(exit=exp[0], stdout_len=len(exp[1]), stderr=exp[2].decode('utf-8', 'replace')[:300]),
+                    dict(base, communication_error=(anom == 'comm'),
+                         expected=dict(exit=exp[0], stdout_len=len(exp[1]), stderr=exp[2].decode('utf-8', 'replace')[:300]),
                          observed=dict(exit=obs[0], stdout_len=len(obs[1]), stderr=obs[2].decode('utf-8', 'replace')[:300],
                                        stdout_around_diff=obs[1][max(0, fd - 40):fd + 80].decode('utf-8', 'replace'))))
+    # the session counter as seen through STATUS while the round ran: between 0 and k sessions besides the STATUS session itself
+    # (sessions of the previous round may still be between close() and their decrement: allow prev_k more)
+    if mon.minv is not None and (mon.minv < 0 or mon.maxv > k + prev_k):
+        bad += 1
+        ck.fail('c17:counter:range:k=%d' % k, 'STATUS reported active_clients outside [1, %d] during a round of %d clients (min %d, max %d incl. the STATUS session)' % (
+                    k + 1, k, mon.minv + 1, mon.maxv + 1),
+                dict(case='counter', k=k, jitter=jitter, round_seed=seed, engine=tag, observed=dict(min=mon.minv + 1, max=mon.maxv + 1), expected='1 .. %d' % (k + 1),
+                     theorem='C17_active_balanced: the counter equals the number of sessions in flight'))
     # the extracted client loop on the very bytes the raw clients received
     if raw_lines:
         mo = vlib.run_lines(V.nvref_cmd(ref), raw_lines, timeout=600)
@@ -129,17 +165,19 @@ def one_round(ck, b, d, ref, progs, k, jitter, seed, tag, raw_share=0.25):
                 ck.fail('c17:clientloop:%s' % p['name'], 'extracted client_observe on the daemon\'s reply bytes differs from the standalone observation',
                         dict(case='clientloop', program=p['src'], expected=str(p['obs'])[:400], observed_model=str(mobs)[:400], reply_hex=res[i][1].hex()[:2000]))
     return bad, mon.maxv, dict(k=k, jitter=jitter, seed=seed, overlap_max=mon.maxv, raw=sum(raws), status_samples=mon.samples,
-                               kinds=sorted(set(p['kind'] for p in picks)))
+                               kinds=sorted(set(p['kind'] for p in picks)), hung=n_hung, comm_errors=n_comm, seconds=round(t_round, 1))
 
 
-def daemon_health(ck, d, tag, t_idle=10):
+def daemon_health(ck, d, tag, t_idle=10, quick=False):
+    if quick:
+        t_idle = 3
     alive = d.alive()
-    pong = d.ping() if alive else False
+    pong = d.ping(timeout=3.0 if quick else 5.0) if alive else False
     idle = None
     if alive:
         t0 = time.time()
         while time.time() - t0 < t_idle:
-            idle = d.status()
+            idle = d.status(timeout=2.0 if quick else 5.0)
             if idle == 1:
                 break
             time.sleep(0.05)
@@ -155,8 +193,12 @@ def daemon_health(ck, d, tag, t_idle=10):
     return dict(alive=alive, pong=pong, idle_status=idle)
 
 
-def rounds(ck, b, ref, progs, tag, ks, env_extra=None, nrounds=3):
+def rounds(ck, b, ref, progs, tag, ks, bud, env_extra=None, nrounds=3):
+    """All rounds of one daemon instance = one phase.  Abandoned as soon as bud.exhausted() (>= k hung clients / communication errors)."""
     rep = []
+    bud.new_phase()
+    aborted = None
+    prev_k = 0
     d = V.Daemon(b, env_extra=env_extra)
     d.start()
     try:
@@ -164,18 +206,113 @@ def rounds(ck, b, ref, progs, tag, ks, env_extra=None, nrounds=3):
             for k in ks:
                 jitter = [0.0, 0.004, 0.03][ri % 3]
                 seed = ck.seed * 7919 + ri * 131 + k
-                bad, ov, det = one_round(ck, b, d, ref, progs, k, jitter, seed, tag)
+                bad, ov, det = one_round(ck, b, d, ref, progs, k, jitter, seed, tag, bud, prev_k=prev_k)
+                prev_k = k
                 rep.append(det)
                 if not d.alive():
+                    aborted = 'daemon died in round %d (k=%d)' % (ri, k)
+                elif bud.exhausted():
+                    aborted = '%d hung clients / communication errors in this phase (last round: k=%d, %d hung, %d communication errors)' % (
+                        bud.phase, k, det['hung'], det['comm_errors'])
+                if aborted:
                     break
-        health = daemon_health(ck, d, tag)
+            if aborted:
+                break
+        if aborted:
+            ck.note('%s: remaining rounds of this daemon skipped: %s' % (tag, aborted))
+        health = daemon_health(ck, d, tag, quick=bool(aborted or bud.hangs))
+        health['aborted'] = aborted
         err = d.stderr()
     finally:
         d.stop()
     return rep, health, err
 
 
-def unverified_case(ck, b, progs):
+def wait_status(d, want, t=3.0):
+    """Poll STATUS until it reports `want` twice in a row (threads start and finish asynchronously); returns the last value seen."""
+    t0 = time.time(); v = None; hits = 0
+    while time.time() - t0 < t:
+        v = d.status(timeout=2.0)
+        hits = hits + 1 if v == want else 0
+        if hits >= 2:
+            return v
+        time.sleep(0.03 if hits else 0.02)
+    return v
+
+
+def counter_tie(ck, b, progs, bud, tag='nano_vmd(plain)'):
+    """C17_active_balanced / C17_active_zero_when_done tied to the real daemon: with m well-formed sessions held in flight
+    (header and half of the module sent) STATUS must report m + 1 (the m sessions and the STATUS session itself); when they
+    complete, each gets its standalone-equal result and STATUS is back to 1."""
+    import socket
+    small = [p for p in progs.items if len(p['obs'][1]) < 20000]
+    rep = []
+    bud.new_phase()
+    d = V.Daemon(b); d.start()
+    try:
+        v0 = wait_status(d, 1)
+        ck.count(('counter', 'idle'), nontrivial=True)
+        if v0 != 1:
+            ck.fail('c17:counter:idle', 'fresh daemon with no client reports active_clients=%s through STATUS (expected 1: the STATUS session itself)' % v0,
+                    dict(case='counter', m=0, engine=tag, expected=1, observed=v0, theorem='C17_active_zero_when_done'))
+        for m in (1, 3, 7):
+            if bud.exhausted() or not d.alive():
+                break
+            picks = [small[(m + j) % len(small)] for j in range(m)]
+            socks = []
+            for p in picks:
+                s_ = socket.socket(socket.AF_UNIX, socket.SOCK_STREAM); s_.settimeout(bud.timeout())
+                t0 = time.time()
+                while True:
+                    try:
+                        s_.connect(d.sock); break
+                    except BlockingIOError:
+                        if time.time() - t0 > 5:
+                            raise
+                        time.sleep(0.005)
+                f = V.frame(V.T_LOAD_EXEC, p['blob'])
+                s_.sendall(f[:8 + len(p['blob']) // 2])
+                socks.append((s_, f[8 + len(p['blob']) // 2:]))
+            v = wait_status(d, m + 1)
+            ck.count(('counter', 'inflight', m), nontrivial=True)
+            if v != m + 1:
+                ck.fail('c17:counter:inflight:m=%d' % m, 'with %d sessions in flight STATUS reports active_clients=%s (expected %d)' % (m, v, m + 1),
+                        dict(case='counter', m=m, engine=tag, expected=m + 1, observed=v, programs=[p['name'] for p in picks],
+                             theorem='C17_active_balanced: the counter equals the number of sessions in flight'))
+            for (s_, rest), p in zip(socks, picks):
+                buf = b''; hung = False
+                try:
+                    s_.sendall(rest); s_.shutdown(socket.SHUT_WR)
+                    while True:
+                        x = s_.recv(65536)
+                        if not x:
+                            break
+                        buf += x
+                except socket.timeout:
+                    hung = True
+                except OSError:
+                    pass
+                s_.close()
+                ck.count(('counter', 'client', m, p['name']), nontrivial=True)
+                if hung:
+                    bud.anomaly('hung: held session %s' % p['name'], hung=True)
+                    for s2, _ in socks:          # do not wait one timeout per remaining held session
+                        s2.settimeout(2.0)
+                if hung or V.expected_client_obs(V.canon_reply(buf)) != p['obs']:
+                    ck.fail('c17:client:%s:%s' % (p['kind'], hashlib.sha1(p['src'].encode()).hexdigest()[:10]),
+                            'session held in flight with %d others %s' % (m - 1, 'was never completed by the daemon (timeout %g s)' % bud.timeout() if hung else 'got a result different from standalone'),
+                            dict(case='client', program=p['src'], k=m, hung=hung, engine=tag, phase='counter tie: %d sessions held in flight' % m))
+            v1 = wait_status(d, 1)
+            if v1 != 1:
+                ck.fail('c17:counter:after:m=%d' % m, 'after %d sessions completed STATUS reports active_clients=%s (expected 1)' % (m, v1),
+                        dict(case='counter', m=m, engine=tag, expected=1, observed=v1, theorem='C17_active_zero_when_done'))
+            rep.append(dict(m=m, status_in_flight=v, status_after=v1))
+    finally:
+        d.stop()
+    return rep
+
+
+def unverified_case(ck, b, progs, bud):
     """Open finding replay: a module that standalone refuses is executed by the daemon (no crash needed)."""
     base = next(p for p in progs.items if p['kind'] == 'lines')
     blob = V.hostile_module(base['blob'], 'code_length')
@@ -184,8 +321,10 @@ def unverified_case(ck, b, progs):
         hp = os.path.join(wd, 'unverified.nvm'); open(hp, 'wb').write(blob)
         st = V.standalone(b, hp)
         with V.Daemon(b) as d:
-            dm = V.via_daemon(b, d, hp, timeout=60)
+            dm = V.via_daemon(b, d, hp, timeout=bud.timeout())
             alive = d.alive()
+        if V.client_anomaly(dm) == 'hung':
+            bud.anomaly('hung: single client, unverified module', hung=True)
     finally:
         shutil.rmtree(wd, ignore_errors=True)
     ck.count(('unverified', 'code_length'), nontrivial=True)
@@ -213,7 +352,7 @@ def tsan_reports(err):
     return reps
 
 
-def tsan_cold_burst(ck, bt, progs, n=12):
+def tsan_cold_burst(ck, bt, progs, bud, n=12):
     """Fresh TSan daemon; n pre-connected clients release their LOAD_EXEC requests at the same instant, so that several sessions
     are inside crc32_init()/nvm_crc32() before any of them has written to its socket (TSan treats every socket write/read pair as
     a release/acquire on one global object, which hides the race from later arrivals)."""
@@ -225,11 +364,14 @@ def tsan_cold_burst(ck, bt, progs, n=12):
     try:
         socks = []
         for i in range(n):
-            s = socket.socket(socket.AF_UNIX, socket.SOCK_STREAM); s.settimeout(120)
+            s = socket.socket(socket.AF_UNIX, socket.SOCK_STREAM); s.settimeout(bud.timeout())
+            t0 = time.time()
             while True:
                 try:
                     s.connect(d.sock); break
                 except BlockingIOError:
+                    if time.time() - t0 > 5:
+                        raise
                     time.sleep(0.005)
             socks.append(s)
         time.sleep(0.3)                       # all n handler threads are now blocked reading their header
@@ -238,33 +380,40 @@ def tsan_cold_burst(ck, bt, progs, n=12):
         def go(i):
             p = small[i % len(small)]
             data = V.frame(V.T_LOAD_EXEC, p['blob'])
-            bar.wait()
-            socks[i].sendall(data); socks[i].shutdown(socket.SHUT_WR)
-            buf = b''
-            while True:
-                x = socks[i].recv(65536)
-                if not x:
-                    break
-                buf += x
-            out[i] = (p, buf)
+            buf = b''; hung = False
+            try:
+                bar.wait(30)
+                socks[i].sendall(data); socks[i].shutdown(socket.SHUT_WR)
+                while True:
+                    x = socks[i].recv(65536)
+                    if not x:
+                        break
+                    buf += x
+            except socket.timeout:
+                hung = True
+            except (OSError, threading.BrokenBarrierError):
+                pass
+            out[i] = (p, buf, hung)
         ths = [threading.Thread(target=go, args=(i,)) for i in range(n)]
         [t.start() for t in ths]; [t.join() for t in ths]
         for s in socks:
             s.close()
         time.sleep(0.3)
-        health = daemon_health(ck, d, 'nano_vmd(tsan) cold burst')
+        health = daemon_health(ck, d, 'nano_vmd(tsan) cold burst', quick=bool(bud.hangs) or any(o and o[2] for o in out))
         err = d.stderr()
     finally:
         d.stop()
     for i, o in enumerate(out):
         if o is None:
             continue
-        p, buf = o
+        p, buf, hung = o
         ck.count(('tsanburst', p['name'], i), nontrivial=True)
-        if V.expected_client_obs(V.canon_reply(buf)) != p['obs']:
+        if hung:
+            bud.anomaly('hung: cold burst client %d %s' % (i, p['name']), hung=True)
+        if hung or V.expected_client_obs(V.canon_reply(buf)) != p['obs']:
             ck.fail('c17:client:%s:%s' % (p['kind'], hashlib.sha1(p['src'].encode()).hexdigest()[:10]),
-                    'client %d of the simultaneous cold-start burst observed a result different from standalone' % i,
-                    dict(case='client', program=p['src'], k=n, engine='nano_vmd(tsan)'))
+                    'client %d of the simultaneous cold-start burst of %d %s' % (i, n, 'was never served (timeout)' if hung else 'observed a result different from standalone'),
+                    dict(case='client', program=p['src'], k=n, hung=hung, engine='nano_vmd(tsan)', phase='simultaneous cold-start burst of %d raw clients' % n))
     return tsan_reports(err), health
 
 
@@ -309,48 +458,58 @@ def run(ck):
                 ck.fail('c17:standalone-nondeterministic:' + p['kind'], 'two standalone runs of one module differ', dict(case='client', program=p['src']))
         ck.extra['crc_cases'] = crc_corr(ck, ref, probe, progs)
         ks = [2, 8, 16, 16] if not ck.thorough else [2, 16, 64]
-        rep, health, err = rounds(ck, b, ref, progs, 'nano_vmd(plain)', ks, nrounds=4 if not ck.thorough else 6)
+        bud = V.Budget(t_first=60.0, t_after=20.0, k=3, wall=200.0 if not ck.thorough else 1000.0)
+        rep, health, err = rounds(ck, b, ref, progs, 'nano_vmd(plain)', ks, bud, nrounds=4 if not ck.thorough else 6)
         ck.extra['rounds_plain'] = rep
         ck.extra['health_plain'] = health
         ck.extra['overlap_max'] = max([r['overlap_max'] for r in rep] + [0])
         if ck.extra['overlap_max'] < 2:
             ck.note('sessions never overlapped (max simultaneous = %d): isolation was not exercised' % ck.extra['overlap_max'])
-        ck.extra['unverified_module'] = unverified_case(ck, b, progs)
+        ck.extra['counter_tie'] = counter_tie(ck, b, progs, bud)
+        ck.extra['unverified_module'] = unverified_case(ck, b, progs, bud)
         cdir = os.path.join(vlib.VERIF, 'corpus', 'C17')
         for fn in sorted(os.listdir(cdir)) if os.path.isdir(cdir) else []:
             if fn.endswith('.nvm'):
                 fp = os.path.join(cdir, fn)
                 st = V.standalone(b, fp)
                 with V.Daemon(b) as dm:
-                    r = V.via_daemon(b, dm, fp, timeout=60)
+                    r = V.via_daemon(b, dm, fp, timeout=bud.timeout())
                 ck.count(('corpus', fn), nontrivial=True)
                 ck.extra.setdefault('corpus', {})[fn] = dict(standalone_exit=st[0], daemon_exit=r[0], daemon_stdout_len=len(r[1]))
                 if (r[0], r[1]) != (st[0], st[1]):
                     key = KEY_UNVERIFIED if fn == 'unverified_code_length.nvm' else 'c17:corpus:' + fn
                     ck.fail(key, 'corpus module %s: daemon result (exit %s, %d bytes) differs from standalone (exit %s, %d bytes)' % (fn, r[0], len(r[1]), st[0], len(st[1])),
                             dict(case='unverified', hostile_kind='corpus:' + fn, input_hex=open(fp, 'rb').read().hex()))
-        for kf in ck.known:
-            if kf['key'] == KEY_UNVERIFIED and KEY_UNVERIFIED not in [f['key'] for f in ck.failures]:
-                pass          # unverified_case already replayed it; a non-reproducing finding is reported by finish()
         # simultaneous cold start on the ThreadSanitizer build (both tiers: this is where the lazy CRC initialisation races)
-        bt = ck.build('tsan')
-        reps, health_b = tsan_cold_burst(ck, bt, progs, n=12 if not ck.thorough else 24)
-        ck.extra['tsan_cold_burst'] = dict(health=health_b, reports=[dict(kind=r['kind'], funcs=r['funcs'][:4], globals=r['globals']) for r in reps[:10]])
-        report_tsan(ck, reps)
-        if ck.thorough:
-            rep_t, health_t, err_t = rounds(ck, bt, ref, progs, 'nano_vmd(tsan)', [16, 32], nrounds=2,
+        def skip(phase):
+            """Optional phases are dropped only when the budget is gone AND failures are already on record."""
+            if bud.left() <= 0 and ck.failures:
+                ck.note('time budget used up after recorded failures: phase "%s" skipped' % phase)
+                ck.extra.setdefault('skipped_phases', []).append(phase)
+                return True
+            return False
+        if not skip('tsan cold burst'):
+            bt = ck.build('tsan')
+            reps, health_b = tsan_cold_burst(ck, bt, progs, bud, n=12 if not ck.thorough else 24)
+            ck.extra['tsan_cold_burst'] = dict(health=health_b, reports=[dict(kind=r['kind'], funcs=r['funcs'][:4], globals=r['globals']) for r in reps[:10]])
+            report_tsan(ck, reps)
+        if ck.thorough and not skip('tsan rounds'):
+            bt = ck.build('tsan')
+            rep_t, health_t, err_t = rounds(ck, bt, ref, progs, 'nano_vmd(tsan)', [16, 32], bud, nrounds=2,
                                             env_extra=dict(TSAN_OPTIONS='halt_on_error=0:report_signal_unsafe=0:history_size=4'))
             ck.extra['rounds_tsan'] = rep_t; ck.extra['health_tsan'] = health_t
             reps = tsan_reports(err_t)
             ck.extra['tsan_reports_rounds'] = [dict(kind=r['kind'], funcs=r['funcs'], globals=r['globals']) for r in reps[:10]]
             report_tsan(ck, reps)
+        if ck.thorough and not skip('asan rounds'):
             ba = ck.build('asan')
-            rep_a, health_a, err_a = rounds(ck, ba, ref, progs, 'nano_vmd(asan)', [16], nrounds=2,
+            rep_a, health_a, err_a = rounds(ck, ba, ref, progs, 'nano_vmd(asan)', [16], bud, nrounds=2,
                                             env_extra=dict(ASAN_OPTIONS='detect_leaks=0:abort_on_error=1', UBSAN_OPTIONS='halt_on_error=1'))
             ck.extra['rounds_asan'] = rep_a; ck.extra['health_asan'] = health_a
             if 'Sanitizer' in err_a or 'runtime error:' in err_a:
                 ck.fail('c17:asan:' + hashlib.sha1(err_a.encode()).hexdigest()[:8], 'sanitizer report in the daemon under concurrent well-formed clients',
                         dict(case='asan', report=err_a[-3000:]))
+        ck.extra['budget'] = bud.summary()
         p = progs.items[1]
         ck.sample(dict(program=p['name'], standalone=dict(exit=p['obs'][0], stdout_head=p['obs'][1][:60].decode('utf-8', 'replace'), stdout_len=len(p['obs'][1])),
                        note='every concurrent client of this module observed exactly this'))
@@ -361,6 +520,7 @@ def run(ck):
     ck.cov['rule'] = ('rounds of k concurrent clients (k in %s) x arrival jitter {0, 4 ms, 30 ms}; modules drawn with repetition from generated programs of 9 kinds '
                       '(line printers, global state, heap-heavy strings, unterminated last line, runtime error after partial line, arrays, >300 KB output, silent, mixed); '
                       '3/4 real nano_vm --daemon clients, 1/4 raw sockets whose reply is also run through the extracted client loop; overlap measured by STATUS polling; '
+                      'counter tie: m in {1,3,7} sessions held in flight vs STATUS; '
                       'non-trivial = a client with output in a round of k > 1; distinct = (module, round, client index)' % ks)
     ck.extra['exhaustive'] = False
     ck.trusted += ['tools/gen/gen_sharedstate.py: nm inventory of the objects in nano_vmd\'s link list (tools/build_repo.py); reachability from ld --gc-sections --print-gc-sections '
@@ -390,11 +550,11 @@ def replay(ck, d):
             k = int(d.get('k', 16))
             res = [None] * k
             with V.Daemon(b) as dm:
-                ths = [threading.Thread(target=lambda i=i: res.__setitem__(i, V.via_daemon(b, dm, nvm, timeout=180))) for i in range(k)]
+                ths = [threading.Thread(target=lambda i=i: res.__setitem__(i, V.via_daemon(b, dm, nvm, timeout=25))) for i in range(k)]
                 [t.start() for t in ths]; [t.join() for t in ths]
             badn = sum(1 for r in res if r != st)
             print('standalone: exit %s, %d stdout bytes, stderr %r' % (st[0], len(st[1]), st[2][:100]))
-            print('%d of %d concurrent daemon clients differ' % (badn, k))
+            print('%d of %d concurrent daemon clients differ (%d never served within 25 s)' % (badn, k, sum(1 for r in res if V.client_anomaly(r) == 'hung')))
             print('REPRODUCED' if badn else 'not reproduced'); return 1 if badn else 0
         if kind == 'unverified':
             hp = os.path.join(wd, 'u.nvm'); open(hp, 'wb').write(bytes.fromhex(d['input_hex']))
@@ -403,6 +563,20 @@ def replay(ck, d):
                 r = V.via_daemon(b, dm, hp)
             print('standalone:', st[0], st[2][:160]); print('daemon    :', r[0], len(r[1]), 'stdout bytes', r[2][:160])
             rep = (r[0], r[1]) != (st[0], st[1])
+            print('REPRODUCED' if rep else 'not reproduced'); return 1 if rep else 0
+        if kind == 'counter':
+            import socket
+            m = int(d.get('m', 0) or 0)
+            with V.Daemon(b) as dm:
+                held = []
+                for _ in range(m):
+                    s_ = socket.socket(socket.AF_UNIX); s_.connect(dm.sock); s_.sendall(V.header(V.T_LOAD_EXEC, 1000) + b'x' * 10); held.append(s_)
+                v = wait_status(dm, m + 1)
+                for s_ in held:
+                    s_.close()
+                v1 = wait_status(dm, 1)
+            print('%d sessions held in flight: STATUS active_clients=%s (expected %d); after they ended: %s (expected 1)' % (m, v, m + 1, v1))
+            rep = v != m + 1 or v1 != 1
             print('REPRODUCED' if rep else 'not reproduced'); return 1 if rep else 0
         if kind == 'crc':
             ref = ck.nvref('c17'); probe = ck.probe('vmd_probe.c', 'plain')
